@@ -152,6 +152,22 @@ def kernel_sync_full_statement : Prop :=
       ∃ o, s.k.ofdAt fd = some o ∧ ∃ e ∈ s.k.ents, e.ofd = o ∧ e.fd = fd ∧ e.mask = (getW s id).pevents) ∧
     (∀ e ∈ s.k.ents, ∀ id, e.owner = some id → (getW s id).closing = false)
 
+/-- **negative result** (model agrees with the code, replayed on the real library and kernel by
+`corpus/C14-findings/second_handle.txt`): without the "one handle per descriptor" discipline the
+kernel half of kernel_sync is FALSE.  Two `uv_poll_t` are initialised on descriptor 100 (allowed: `uv_poll_init`
+only refuses while a watcher is *registered*), the second is started and registered with the kernel, then
+`uv_poll_stop` on the first — which was never started — issues `EPOLL_CTL_DEL` for the shared descriptor
+(poll.c:102-108 → linux.c:731).  Afterwards handle 1 is still active and registered with `events = pevents`,
+nothing is queued, and the kernel's interest list is empty: it will never be called again. -/
+theorem kernel_sync_fails_with_second_handle :
+    ∃ (prog : List Cmd),
+      let s := exec (fun _ _ => []) { init false 2 14 with multi := true } prog
+      s.aborted = false ∧ watcherAt s 100 = some 1 ∧ (getW s 1).active = true ∧
+      (getW s 1).events = Mask.pollin ∧ (getW s 1).pevents = Mask.pollin ∧ s.wq = [] ∧ s.k.ents = [] := by
+  refine ⟨[.op (.openfd 100 0), .op (.pinit 100), .op (.pinit 100), .op (.pstart 1 ⟨true, false, false, false⟩),
+           .run [], .op (.pstop 0)], ?_⟩
+  set_option maxRecDepth 100000 in decide
+
 /-! ### only_requested -/
 
 /-- **only_requested** (mask level, linux.c:1536-1555): what a watcher callback receives is within
